@@ -9,7 +9,7 @@ BOUNDED = [
     {'name': 'C10.so_conformance', 'script': 'bounded/c10_conformance.py', 'timeout': 900,
      'bound': 'shipped .so through the real adapter: all 1<=min<=max<=9 (thorough: 12) with an aligned length in range; '
               'stream lengths {0..7, min, max-1..max+1, 2max-1..2max+1, 3max+2}; ALL segmentations of streams <= 7 bytes, '
-              'seeded random ones above; 2 (thorough: 3) keys'},
+              'seeded random ones above; 2 (thorough: 3) keys; large single pieces of round sizes (2^16 .. 2^24, multiples of 1 MiB / 4 MiB, 10^6) in 3 segmentations each, 2 parameter pairs'},
 ]
 TRUSTED = [
     'vf symbolic executor + cvc front end (/verif/vf/cxx.py): C++ subset -> Python ast translation as stated in its docstring',
